@@ -612,4 +612,145 @@ theorem trigPoly_refine (a b : ℕ → ℝ) (B N r j : ℕ) (hr : 0 < r) :
   refine Finset.sum_congr rfl (fun p _ => ?_)
   rw [Nat.mul_left_comm p r j, ang_refine N r _ hr]
 
+/-! ### variables by name: decode / encode of channel columns -/
+
+theorem decode_mem : ∀ (S : Vars) (c : ℕ) (v : String) (j : ℕ), decode S c = some (v, j) → ∃ d, (v, d) ∈ S ∧ j < d
+  | [], _, _, _, h => by simp [decode] at h
+  | (w, d) :: S, c, v, j, h => by
+    simp only [decode] at h
+    split at h
+    · next hc =>
+      simp only [Option.some.injEq, Prod.mk.injEq] at h
+      obtain ⟨rfl, rfl⟩ := h
+      exact ⟨d, List.mem_cons_self, hc⟩
+    · obtain ⟨d', hm, hj⟩ := decode_mem S (c - d) v j h
+      exact ⟨d', List.mem_cons_of_mem _ hm, hj⟩
+
+theorem decode_lt : ∀ (S : Vars) (c : ℕ), c < vdim S → ∃ vj, decode S c = some vj
+  | [], c, h => by simp [vdim] at h
+  | (w, d) :: S, c, h => by
+    simp only [decode]
+    split
+    · exact ⟨_, rfl⟩
+    · next hc =>
+      simp only [vdim] at h
+      exact decode_lt S (c - d) (by omega)
+
+theorem mem_keysOf {S : Vars} {v : String} {d : ℕ} (h : (v, d) ∈ S) : v ∈ keysOf S :=
+  List.mem_map.mpr ⟨(v, d), h, rfl⟩
+
+theorem encode_decode : ∀ (S : Vars), (keysOf S).Nodup → ∀ (c : ℕ) (v : String) (j : ℕ),
+    decode S c = some (v, j) → encode S v j = some c
+  | [], _, _, _, _, h => by simp [decode] at h
+  | (w, d) :: S, hn, c, v, j, h => by
+    simp only [keysOf, List.map_cons, List.nodup_cons] at hn
+    simp only [decode] at h
+    split at h
+    · next hc =>
+      simp only [Option.some.injEq, Prod.mk.injEq] at h
+      obtain ⟨rfl, rfl⟩ := h
+      simp [encode, hc]
+    · next hc =>
+      obtain ⟨d', hm, _⟩ := decode_mem S (c - d) v j h
+      have hne : w ≠ v := by
+        rintro rfl
+        exact hn.1 (mem_keysOf hm)
+      simp only [encode, hne, if_false]
+      rw [encode_decode S hn.2 (c - d) v j h]
+      simp only [Option.map_some, Option.some.injEq]
+      omega
+
+theorem decode_encode : ∀ (S : Vars) (v : String) (j c : ℕ), encode S v j = some c → decode S c = some (v, j)
+  | [], _, _, _, h => by simp [encode] at h
+  | (w, d) :: S, v, j, c, h => by
+    simp only [encode] at h
+    split at h
+    · next hw =>
+      subst hw
+      split at h
+      · next hj =>
+        simp only [Option.some.injEq] at h
+        subst h
+        simp [decode, hj]
+      · simp at h
+    · next hw =>
+      cases he : encode S v j with
+      | none => simp [he] at h
+      | some c' =>
+        simp only [he, Option.map_some, Option.some.injEq] at h
+        subst h
+        have : ¬ (c' + d < d) := by omega
+        simp only [decode, this, if_false, Nat.add_sub_cancel]
+        exact decode_encode S v j c' he
+
+theorem encode_of_mem : ∀ (S : Vars), (keysOf S).Nodup → ∀ (v : String) (d j : ℕ), (v, d) ∈ S → j < d →
+    ∃ c, encode S v j = some c
+  | [], _, _, _, _, h, _ => by simp at h
+  | (w, d') :: S, hn, v, d, j, h, hj => by
+    simp only [keysOf, List.map_cons, List.nodup_cons] at hn
+    rcases List.mem_cons.mp h with h | h
+    · simp only [Prod.mk.injEq] at h
+      obtain ⟨rfl, rfl⟩ := h
+      exact ⟨j, by simp [encode, hj]⟩
+    · have hne : w ≠ v := by
+        rintro rfl
+        exact hn.1 (mem_keysOf h)
+      obtain ⟨c, hc⟩ := encode_of_mem S hn.2 v d j h hj
+      exact ⟨c + d', by simp [encode, hne, hc]⟩
+
+/-- two layouts of the same named variables -/
+structure SameVars (A B : Vars) : Prop where
+  nodupA : (keysOf A).Nodup
+  nodupB : (keysOf B).Nodup
+  mem : ∀ e, e ∈ A ↔ e ∈ B
+
+theorem SameVars.symm {A B : Vars} (h : SameVars A B) : SameVars B A := ⟨h.nodupB, h.nodupA, fun e => (h.mem e).symm⟩
+
+theorem srcCol_some {src dst : Vars} (h : SameVars src dst) (c : ℕ) (hc : c < vdim dst) :
+    ∃ s, srcCol src dst c = some s ∧ srcCol dst src s = some c := by
+  obtain ⟨⟨v, j⟩, hd⟩ := decode_lt dst c hc
+  obtain ⟨d, hm, hj⟩ := decode_mem dst c v j hd
+  obtain ⟨s, hs⟩ := encode_of_mem src h.nodupA v d j ((h.mem _).mpr hm) hj
+  refine ⟨s, by simp [srcCol, hd, hs], ?_⟩
+  simp [srcCol, decode_encode src v j s hs, encode_decode dst h.nodupB c v j hd]
+
+theorem selectable_of_same {src dst : Vars} (h : SameVars src dst) : selectable src dst = true := by
+  simp only [selectable, List.all_eq_true, List.mem_range]
+  intro c hc
+  obtain ⟨s, hs, _⟩ := srcCol_some h c hc
+  simp [hs]
+
+theorem sameKeySet_of_same {src dst : Vars} (h : SameVars src dst) : sameKeySet src dst = true := by
+  have key : ∀ {A B : Vars}, (∀ e, e ∈ A ↔ e ∈ B) → ∀ k ∈ keysOf A, k ∈ keysOf B := by
+    intro A B hm k hk
+    obtain ⟨⟨v, d⟩, he, rfl⟩ := List.mem_map.mp hk
+    exact mem_keysOf ((hm _).mp he)
+  simp only [sameKeySet, Bool.and_eq_true, List.all_eq_true, List.contains_iff_mem]
+  exact ⟨fun k hk => key h.mem k hk, fun k hk => key (fun e => (h.mem e).symm) k hk⟩
+
+/-- re-layout there and back is the identity on the existing columns -/
+theorem relayout_roundtrip {K : Type} {src dst : Vars} (h : SameVars src dst) (v : ℕ → K) (c : ℕ) (hc : c < vdim dst) :
+    relayout src dst (relayout dst src v) c = v c := by
+  obtain ⟨s, hs, hback⟩ := srcCol_some h c hc
+  simp [relayout, hs, hback]
+
+theorem relayout_self {K : Type} {S : Vars} (hn : (keysOf S).Nodup) (v : ℕ → K) (c : ℕ) (hc : c < vdim S) :
+    relayout S S v c = v c := by
+  obtain ⟨s, hs, hback⟩ := srcCol_some (⟨hn, hn, fun _ => Iff.rfl⟩ : SameVars S S) c hc
+  obtain ⟨⟨w, j⟩, hd⟩ := decode_lt S c hc
+  have : srcCol S S c = some c := by simp [srcCol, hd, encode_decode S hn c w j hd]
+  simp [relayout, this]
+
+theorem sumTo_congr (n : ℕ) (f g : ℕ → ℝ) (h : ∀ j, j < n → f j = g j) : sumTo n f = sumTo n g := by
+  rw [sumTo_eq, sumTo_eq]
+  exact Finset.sum_congr rfl (fun j hj => h j (Finset.mem_range.mp hj))
+
+/-- `nn.Linear` with `C` input features reads the channels `< C` only -/
+theorem linear_congr (C : ℕ) (W : ℕ → ℕ → ℝ) (b : ℕ → ℝ) (v w : ℕ → ℝ) (h : ∀ c, c < C → v c = w c) :
+    linear C W b v = linear C W b w := by
+  funext c
+  simp only [linear]
+  rw [sumTo_congr C _ _ (fun c' hc' => by rw [h c' hc'])]
+
+
 end TPV.Fourier
